@@ -403,8 +403,13 @@ class Runner:
             if b[0] == 'bool' and b[1] == '.transitioned' and r == '' and rhs in (['true'], ['false']):
                 return ('setB', '.transitioned', rhs[0])
             if b[0] in ('callEnv', 'armEnv') and (r == '*') == (b[0] == 'callEnv'):
-                src = rhs[:-4] if rhs[-4:] == ['.', 'clone', '(', ')'] else rhs
-                return ('assign', '.call' if b[0] == 'callEnv' else '.arm', self.env(scope, src, "assignment", ('*',)))
+                cloned = rhs[-4:] == ['.', 'clone', '(', ')']
+                r2, c2 = strip_ref(rhs[:-4] if cloned else rhs)
+                b2 = self.look(scope, the_ident(c2, "assignment"), "assignment")
+                if b2[0] == 'armEnv' and r2 == '': src = '.arm'                      # moved or cloned
+                elif b2[0] == 'callEnv' and (r2 == '*' or (cloned and r2 == '')): src = '.call'
+                else: raise Unrecognised("assignment `%s`" % show(lhs + [op] + rhs))
+                return ('assign', '.call' if b[0] == 'callEnv' else '.arm', src)
             raise Unrecognised("assignment `%s`" % show(lhs + [op] + rhs))
         if k == 'return':
             e = s[1]
